@@ -586,12 +586,12 @@ func (p *peer) process(data []byte) {
 	s := r.s
 	msg, err := capnp.Unmarshal(data)
 	if err != nil {
-		s.Fail("malformed_outbound", "rpc.go:sendMessage", fmt.Sprintf("the Conn sent bytes that do not unmarshal: %v", err))
+		p.r.mfail("malformed_outbound", "rpc.go:sendMessage", fmt.Sprintf("the Conn sent bytes that do not unmarshal: %v", err))
 		return
 	}
 	m, err := rpccp.ReadRootMessage(msg)
 	if err != nil {
-		s.Fail("malformed_outbound", "rpc.go:sendMessage", fmt.Sprintf("the Conn sent a message without a root: %v", err))
+		p.r.mfail("malformed_outbound", "rpc.go:sendMessage", fmt.Sprintf("the Conn sent a message without a root: %v", err))
 		return
 	}
 	switch m.Which() {
@@ -613,7 +613,7 @@ func (p *peer) process(data []byte) {
 		case rpccp.MessageTarget_Which_importedCap:
 			q.target = fmt.Sprintf("imp:%d", tg.ImportedCap())
 			if e := p.mine[tg.ImportedCap()]; e == nil || e.refs <= 0 {
-				s.Fail("call_on_released_import", "import.go:(*importClient).Send", fmt.Sprintf("the Conn called import %d which it does not hold (refs=%v)", tg.ImportedCap(), e))
+				p.r.mfail("call_on_released_import", "import.go:(*importClient).Send", fmt.Sprintf("the Conn called import %d which it does not hold (refs=%v)", tg.ImportedCap(), e))
 				return
 			}
 		case rpccp.MessageTarget_Which_promisedAnswer:
@@ -638,16 +638,16 @@ func (p *peer) process(data []byte) {
 		id := rt.AnswerId()
 		q := p.myQ[id]
 		if q == nil {
-			s.Fail("return_unknown", "answer.go:(*answer).sendReturn", fmt.Sprintf("the Conn sent a Return for answer id %d which no outstanding question has", id))
+			p.r.mfail("return_unknown", "answer.go:(*answer).sendReturn", fmt.Sprintf("the Conn sent a Return for answer id %d which no outstanding question has", id))
 			return
 		}
 		q.returns++
 		if q.returns > 1 {
-			s.Fail("return_duplicate", "answer.go:(*answer).sendReturn", fmt.Sprintf("the Conn sent %d Returns for question %d", q.returns, id))
+			p.r.mfail("return_duplicate", "answer.go:(*answer).sendReturn", fmt.Sprintf("the Conn sent %d Returns for question %d", q.returns, id))
 			return
 		}
 		if q.finishSent && q.returned {
-			s.Fail("return_duplicate", "answer.go:(*answer).sendReturn", fmt.Sprintf("Return for question %d after it was finished and returned", id))
+			p.r.mfail("return_duplicate", "answer.go:(*answer).sendReturn", fmt.Sprintf("Return for question %d after it was finished and returned", id))
 			return
 		}
 		q.returned = true
@@ -655,7 +655,7 @@ func (p *peer) process(data []byte) {
 		case rpccp.Return_Which_results:
 			pl, err := rt.Results()
 			if err != nil {
-				s.Fail("return_wrong_content", "answer.go:(*answer).sendReturn", fmt.Sprintf("Return for question %d has unreadable results: %v", id, err))
+				p.r.mfail("return_wrong_content", "answer.go:(*answer).sendReturn", fmt.Sprintf("Return for question %d has unreadable results: %v", id, err))
 				return
 			}
 			q.retCaps = readCaps(pl)
@@ -690,7 +690,7 @@ func (p *peer) process(data []byte) {
 		case rpccp.Return_Which_canceled:
 			q.retErr = "canceled"
 			if !q.finishSent {
-				s.Fail("return_wrong_content", "answer.go:(*answer).sendReturn", fmt.Sprintf("Return(canceled) for question %d which the peer never finished", id))
+				p.r.mfail("return_wrong_content", "answer.go:(*answer).sendReturn", fmt.Sprintf("Return(canceled) for question %d which the peer never finished", id))
 				return
 			}
 		default:
@@ -703,7 +703,7 @@ func (p *peer) process(data []byte) {
 		s.Logf("conn -> peer: Finish q=%d releaseResultCaps=%v", id, f.ReleaseResultCaps())
 		q := p.theirQ[id]
 		if q == nil || !p.openTheirQ[id] {
-			s.Fail("finish_unknown", "rpc.go:(*Conn).handleReturn", fmt.Sprintf("the Conn sent Finish for question %d which is not open", id))
+			p.r.mfail("finish_unknown", "rpc.go:(*Conn).handleReturn", fmt.Sprintf("the Conn sent Finish for question %d which is not open", id))
 			return
 		}
 		q.finishSeen = true
@@ -750,7 +750,7 @@ func (p *peer) process(data []byte) {
 			if e != nil {
 				have = e.delivered - e.released
 			}
-			s.Fail("release_count_mismatch", "import.go:(*importClient).Shutdown", fmt.Sprintf("the Conn sent Release(id=%d, count=%d) but it has received %d not yet released reference(s) to that import: a Release may never exceed the references received", id, n, have))
+			p.r.mfail("release_count_mismatch", "import.go:(*importClient).Shutdown", fmt.Sprintf("the Conn sent Release(id=%d, count=%d) but it has received %d not yet released reference(s) to that import: a Release may never exceed the references received", id, n, have))
 			return
 		}
 		e.released += n
@@ -773,7 +773,7 @@ func (p *peer) process(data []byte) {
 
 func (p *peer) openQuestion(id uint32, q *theirQuestion) {
 	if p.openTheirQ[id] {
-		p.r.s.Fail("question_id_reuse", "rpc.go:(*Conn).handleReturn", fmt.Sprintf("the Conn reused question id %d before sending the Finish of its previous use", id))
+		p.r.mfail("question_id_reuse", "rpc.go:(*Conn).handleReturn", fmt.Sprintf("the Conn reused question id %d before sending the Finish of its previous use", id))
 		return
 	}
 	if old := p.theirQ[id]; old != nil {
@@ -798,7 +798,7 @@ func (p *peer) noteConnDescriptor(cd capDesc, app int) {
 		e.refs++
 		if app >= 0 {
 			if e.appID >= 0 && e.appID != app {
-				p.r.s.Fail("export_identity", "export.go:(*Conn).sendCap", fmt.Sprintf("export id %d designates application capability %d and now %d while the peer still holds references", cd.id, e.appID, app))
+				p.r.mfail("export_identity", "export.go:(*Conn).sendCap", fmt.Sprintf("export id %d designates application capability %d and now %d while the peer still holds references", cd.id, e.appID, app))
 				return
 			}
 			e.appID = app
@@ -825,7 +825,7 @@ func (p *peer) handleDisembargo(d rpccp.Disembargo) {
 		s.Probe("disembargo_sender_loopback_received")
 		tg, _ := d.Target()
 		if tg.Which() != rpccp.MessageTarget_Which_promisedAnswer {
-			s.Fail("disembargo_target", "rpc.go:(*Conn).handleReturn", "senderLoopback disembargo does not target a promised answer")
+			p.r.mfail("disembargo_target", "rpc.go:(*Conn).handleReturn", "senderLoopback disembargo does not target a promised answer")
 			return
 		}
 		// echo (our reflected calls, if any, were sent before)
